@@ -23,6 +23,42 @@ class StringDtype:
     __str__ = __repr__
 
 
+class NarrowDtype:
+    """A numpy number dtype other than the default width (int32, float32 ...): equal to no Python type."""
+
+    def __init__(self, kind, bits): self.kind, self.bits = kind, bits
+    def __eq__(self, o): return isinstance(o, NarrowDtype) and (o.kind, o.bits) == (self.kind, self.bits) or o == repr(self)
+    def __ne__(self, o): return not self.__eq__(o)
+    def __hash__(self): return hash((self.kind, self.bits))
+    def __repr__(self): return {'i': 'int', 'f': 'float', 'u': 'uint'}[self.kind] + str(self.bits)
+    __str__ = __repr__
+
+
+def _dtype_kind(t):
+    if isinstance(t, NarrowDtype):
+        return t.kind
+    if isinstance(t, (Series, ndarray)):
+        return _dtype_kind(t.dtype)
+    n = getattr(t, '__name__', t)
+    if t is float or n in ('float', 'float64', 'float_', 'float32', 'float16'):
+        return 'f'
+    if t is int or n in ('int', 'int64', 'int_', 'int32', 'int16', 'int8'):
+        return 'i'
+    if t is bool or n in ('bool', 'bool_'):
+        return 'b'
+    if t is None:
+        raise ShimGap('kind of an untracked dtype')
+    return 'O'
+
+
+class _ApiTypes:
+    is_float_dtype = staticmethod(lambda t: _dtype_kind(t) == 'f')
+    is_integer_dtype = staticmethod(lambda t: _dtype_kind(t) in ('i', 'u'))
+    is_bool_dtype = staticmethod(lambda t: _dtype_kind(t) == 'b')
+    is_numeric_dtype = staticmethod(lambda t: _dtype_kind(t) in ('i', 'u', 'f', 'b'))
+    is_string_dtype = staticmethod(lambda t: isinstance(t, StringDtype) or t is str)
+
+
 class _Gap(types.ModuleType):
     def __getattr__(self, n):
         if n.startswith('__'):
@@ -265,6 +301,22 @@ class Series:
     def __or__(self, o): return self._bin(o, _or, bool)
     def __ror__(self, o): return self._bin(o, _or, bool)
     def __invert__(self): return self._map(_not, bool)
+
+    def _inplace(self, r):
+        """pandas' augmented assignments write the result into the object itself (every alias sees it)."""
+        if r is NotImplemented:
+            return r
+        if not r.index.same(self.index):
+            raise ShimGap('augmented assignment that changes the index of a Series')
+        self.v[:] = r.v
+        self.dtype = r.dtype
+        return self
+    def __iand__(self, o): return self._inplace(self.__and__(o))
+    def __ior__(self, o): return self._inplace(self.__or__(o))
+    def __iadd__(self, o): return self._inplace(self.__add__(o))
+    def __isub__(self, o): return self._inplace(self.__sub__(o))
+    def __imul__(self, o): return self._inplace(self.__mul__(o))
+    def __itruediv__(self, o): return self._inplace(self.__truediv__(o))
     def __neg__(self): return self._map(lambda a: -a)
     def __abs__(self): return self._map(builtins.abs)
     def abs(self): return self._map(builtins.abs)
@@ -300,7 +352,8 @@ class Series:
 
     @property
     def values(self): return ndarray(self.v)
-    def to_numpy(self, *a, **k): return ndarray(self.v)
+    def to_numpy(self, dtype=None, **k):
+        return ndarray(self.v) if dtype is None else ndarray(self.v).astype(dtype)
     def to_list(self): return list(self.v)
     tolist = to_list
     @property
@@ -1089,6 +1142,7 @@ def install():
     m.isna = isna
     m.isnull = isna
     m.NA = None
+    m.api = types.SimpleNamespace(types=_ApiTypes)
     m.__version__ = 'model'
     sys.modules['pandas'] = m
     return m
